@@ -163,6 +163,31 @@ class _DropAnn(ast.NodeTransformer):
         return n
 
 
+    def visit_AugAssign(self, n):
+        # X += [a, b]  ->  X.append(a); X.append(b)        X |= {a}  ->  X.add(a)
+        if self.depth > 0 and isinstance(n.target, ast.Name):
+            meth = None
+            if isinstance(n.op, ast.Add) and isinstance(n.value, ast.List) and n.value.elts:
+                meth = "append"
+            elif isinstance(n.op, ast.BitOr) and isinstance(n.value, ast.Set) and n.value.elts:
+                meth = "add"
+            if meth and not any(isinstance(e, ast.Starred) for e in n.value.elts):
+                return [ast.copy_location(ast.Expr(ast.copy_location(ast.Call(ast.copy_location(
+                    ast.Attribute(ast.copy_location(ast.Name(n.target.id, ast.Load()), n), meth, ast.Load()), n), [e], []), n)), n)
+                    for e in n.value.elts]
+        return n
+
+    def visit_Expr(self, n):
+        # X.extend([a, b]) -> X.append(a); X.append(b)
+        c = n.value
+        if self.depth > 0 and isinstance(c, ast.Call) and isinstance(c.func, ast.Attribute) and c.func.attr == "extend" \
+                and isinstance(c.func.value, ast.Name) and len(c.args) == 1 and isinstance(c.args[0], ast.List) and c.args[0].elts \
+                and not any(isinstance(e, ast.Starred) for e in c.args[0].elts):
+            return [ast.copy_location(ast.Expr(ast.copy_location(ast.Call(ast.copy_location(
+                ast.Attribute(c.func.value, "append", ast.Load()), n), [e], []), n)), n) for e in c.args[0].elts]
+        return n
+
+
 def _drop_local_annotations(tree: ast.Module) -> None:
     _DropAnn().visit(tree)
 
